@@ -70,6 +70,7 @@ var concJudged = map[string]string{
 	"C05": "batch put del get",
 	"C10": "iter",
 	"C20": "backup",
+	"C18": "-", // the hint file is judged once the callers are quiescent
 	"C17": "-", // nothing in the concurrent phase: Stat is recomputed once the callers are quiescent
 }
 
@@ -197,7 +198,7 @@ func runConc(r *Runner) {
 		hist = append(hist, ts.hist...)
 	}
 	r.judging = true
-	if r.C.Prop != "C09" && r.C.Prop != "C17" { // C09 judges races, panics, deadlocks and bogus errors; histories are C08's business
+	if r.C.Prop != "C09" && r.C.Prop != "C17" && r.C.Prop != "C18" { // C09 judges races, panics, deadlocks and bogus errors; histories are C08's business
 		r.checkLinearizable(initial, hist)
 		if r.violated() {
 			return
@@ -712,12 +713,25 @@ func (r *Runner) verifyQuiescent(initial State, hist []HistOp) {
 		r.closeDB()
 		return
 	}
-	if r.C.Prop == "C17" {
-		r.judging = false // a wrong mapping is C08's business; only the accounting is judged here
+	if r.C.Prop == "C17" || r.C.Prop == "C18" {
+		r.judging = false // a wrong mapping is C08's business; only the accounting / the hint file is judged here
 	}
 	live, f := dumpDB(r.DB, nil)
 	if f != "" {
 		r.fail("quiescent-dump", "", "live dump at quiescence: %s", f)
+		return
+	}
+	if r.C.Prop == "C18" {
+		// the hint file of a merge that ran next to writers: it must index the merged files entry by entry, and
+		// opening through it must give what scanning gives
+		r.M = State(live.Vals).clone()
+		if r.Cnt["conc_merges"] > 0 {
+			r.extra["hintConc"] = true
+			r.judging = true
+			r.checkHint()
+			r.judging = false
+		}
+		r.closeDB()
 		return
 	}
 	if r.C.Prop == "C17" {
